@@ -177,6 +177,13 @@ ResultsOpFacts(idx, m, o) ==
        [] o.op = "upgrade_and_extend" -> [docs |-> arein \o notin \o other, n |-> Cardinality(S1 \cup S2)]
 ResultsOpOK(idx, m, o) == LET F == ResultsOpFacts(idx, m, o) IN o.docs = F.docs /\ o.n = F.n
 
+\* the matches that a filter / mask given with the observation leave over (the matches themselves when none is given)
+MaskedM(idx, m, o) ==
+  IF "hasfilt" \notin DOMAIN o THEN m
+  ELSE LET allow == IF o.hasfilt THEN DOMAIN Denote(idx, o.filt) ELSE DOMAIN m
+           deny == IF o.hasmask THEN DOMAIN Denote(idx, o.mask) ELSE {}
+       IN Restrict(m, (DOMAIN m \cap allow) \ deny)
+
 FilteredOK(idx, m, o) ==
   LET allow == IF o.hasfilt THEN DOMAIN Denote(idx, o.filt) ELSE DOMAIN m
       deny == IF o.hasmask THEN DOMAIN Denote(idx, o.mask) ELSE {}
@@ -200,7 +207,7 @@ PageOK(m, o) == LET F == PageFacts(m, o) IN
 ObsOK(idx, m, q, o) ==
   CASE o.kind = "sorted" -> SortedOK(idx, m, o)
     [] o.kind = "groups" -> GroupsOK(idx, m, o)
-    [] o.kind = "collapse" -> CollapseOK(idx, m, o)
+    [] o.kind = "collapse" -> CollapseOK(idx, MaskedM(idx, m, o), o)    \* (collapsing what a filter / mask let through)
     [] o.kind = "groupview" -> GroupViewOK(idx, m, o)
     \* the hits of a limited, score-ranked search whatever else it computes (groups) and in either direction
     [] o.kind = "limited" -> o.docs = Prefix(IF o.rev THEN Rev(Rank(m)) ELSE Rank(m), o.k)
@@ -220,10 +227,11 @@ Expected(idx, m, q, o) ==
     [] o.kind = "groups" -> IF o.f \in {"_range", "_query", "_drange", "_multi1"}
                             THEN [allowed_keys |-> [d \in DOMAIN m |-> AllowedKeys(idx, d, o)]]
                             ELSE [groups |-> GroupsSpec(idx, DOMAIN m, o.f, o.overlap)]
-    [] o.kind = "collapse" -> LET rk == CollapseRank(idx, m, o) IN
-                              [docs |-> Prefix(CollapseKept(idx, m, o), o.k),
-                               collapsed |-> Cardinality(DOMAIN m) - Len(CollapseKept(idx, m, o)),
-                               len |-> Len(CollapseKept(idx, m, o)),
+    [] o.kind = "collapse" -> LET mm == MaskedM(idx, m, o)
+                                  rk == CollapseRank(idx, mm, o) IN
+                              [docs |-> Prefix(CollapseKept(idx, mm, o), o.k),
+                               collapsed |-> Cardinality(DOMAIN mm) - Len(CollapseKept(idx, mm, o)),
+                               len |-> Len(CollapseKept(idx, mm, o)),
                                docs_if_valueless_documents_share_a_key |->
                                   Prefix(CollapseSeq(idx, rk, o.f, o.n, Len(rk), TRUE), o.k),
                                len_if_valueless_documents_share_a_key |-> Len(CollapseSeq(idx, rk, o.f, o.n, Len(rk), TRUE))]
